@@ -93,11 +93,13 @@ CHECKS = {
         'harnesses': [
             {'fn': C + 'H_C11_1_CallerOnly', 'native': False, 'must_reach': ['succeeded', 'failed']},
             {'fn': C + 'H_C11_2_SignedMessage', 'native': False, 'must_reach': ['accepted', 'refused']},
+            {'fn': C + 'H_C11_3_WithdrawRewards', 'native': False, 'over': {'max-decisions': 2000}, 'must_reach': ['withdrew-from-both', 'nothing-to-withdraw']},
+            {'fn': C + 'H_C11_4_Views', 'native': False, 'over': {'max-decisions': 2000}, 'must_reach': ['view-answered']},
         ],
         'level_text': 'Bounded exhaustive symbolic execution of the staking precompile\'s real executors (delegate, undelegate, redelegate, withdrawReward, delegateByActionMessage, withdrawRewardsByMessage, autoEmitEventsFromSdkEvents) through the fork\'s real EVM.Call -> RunCustom -> the repo\'s wrapper, with the SDK staking / distribution message servers replaced by recording stubs that emit the SDK\'s events (incl. the reward payout the distribution hook makes when an existing delegation is modified): exactly one native message per successful call, delegator = immediate caller, validators / amount / denomination = decoded arguments; logs match the module events one-to-one; the signed variants submit a message only if message.delegator = caller and the EIP-712 signature (uninterpreted) recovers to that delegator for the EVM\'s own chain id.',
-        'level_note': 'Partial claim. "Effect identical to the native message" below the message-server boundary holds by construction (the precompile calls the native servers) and is not re-proved; views, transfer() and withdrawRewards() are not encoded. No native replay: the SDK staking and distribution keepers are concrete structs that only exist in a full application; a counterexample is reported at engine level.',
-        'bounds': ['2 callers, 2 validators, amount < 2^200, with / without pending rewards, native server accepts / rejects', 'signed variants: delegator in 2 accounts, signature recovers to one of 3 accounts or is invalid, 2 actions + withdraw'],
-        'outside': ['SDK staking / distribution internals (reward accrual, unbonding queues, slashing)', 'EIP-712 typed-data hashing and secp256k1 (uninterpreted)', 'view methods, transfer(), withdrawRewards()', 'contract callers via DELEGATECALL (the executor sees caller.Address() as passed by the fork)'],
+        'level_note': 'Partial claim. "Effect identical to the native message" below the message-server boundary holds by construction (the precompile calls the native servers) and is not re-proved; withdrawRewards() (one native withdrawal per validator at or above the minimum, for the caller) and the five view methods (numbers of the native queries, asked for the argument address, truncation of decimals) are decided against stub queries with symbolic figures; transfer() is only covered for determinism of its validator choice (C01). No native replay: the SDK staking and distribution keepers are concrete structs that only exist in a full application; a counterexample is reported at engine level.',
+        'bounds': ['2 callers, 2 validators, amount < 2^200, with / without pending rewards, native server accepts / rejects', 'signed variants: delegator in 2 accounts, signature recovers to one of 3 accounts or is invalid, 2 actions + withdraw', 'withdrawRewards: 0-2 reward entries with symbolic integer part < 2^100, fractional part, optional second denomination', 'views: 2 argument addresses, 2 validators, shares < 2^120 * 10^-18 at exchange rate 3, bonded < 2^128, rewards as above, CALL / STATICCALL'],
+        'outside': ['SDK staking / distribution internals (reward accrual, unbonding queues, slashing)', 'EIP-712 typed-data hashing and secp256k1 (uninterpreted)', 'transfer() effects, balanceOf', 'contract callers via DELEGATECALL (the executor sees caller.Address() as passed by the fork)'],
         'assumptions': TX_ASSUMPTIONS + ['staking / distribution message servers: recording stubs emitting the events of cosmos-sdk v0.50.10 (delegate, unbond, redelegate, withdraw_rewards with the attribute sets the precompile filters on)', 'sdk.ParseCoinsNormalized is the inverse of Coin.String for one coin; encoding/json of the typed messages is an inverse pair'],
     },
     'C12': {
